@@ -423,9 +423,10 @@ def run_check(prop, tier, seed=0, only=None, nproc=None, serial=False, verbose=T
     harness_errors = []
     total = Agg()
     ex = None if serial else cf.ProcessPoolExecutor(max_workers=nproc, mp_context=multiprocessing.get_context('fork'))
-    for label, params in configs:
+    for ci, (label, params) in enumerate(configs):
         log("[%s/%s] config %s" % (prop, tier, label))
         remaining = total_budget - (time.time() - t_start)
+        n_left = len(configs) - ci
         if tier == 'thorough' and remaining < 5 and per_config:
             # total wall budget of the tier used up: the remaining configurations are reported as not explored
             skipped = Agg()
@@ -436,9 +437,11 @@ def run_check(prop, tier, seed=0, only=None, nproc=None, serial=False, verbose=T
             log("    -> skipped (tier budget exhausted)")
             continue
         if tier == 'thorough':
-            budget = max(10.0, min(per_cfg * 2, remaining))
+            # fair share of what is left: time a configuration does not use rolls over to the later ones, and no
+            # configuration can starve the rest of the grid
+            budget = max(10.0, remaining / n_left)
             if '_budget_s' in params:
-                budget = min(float(params['_budget_s']), max(10.0, remaining))
+                budget = min(float(params['_budget_s']), max(10.0, remaining / n_left * 2))
         else:
             budget = max(15.0, min(per_cfg * 2, remaining)) if remaining > 15 else 15.0
             if '_budget_s' in params:
